@@ -22,6 +22,8 @@ type Solver struct {
 	Queries int
 	Time    time.Duration
 	Errors  []string
+	SendTime, AskTime time.Duration
+	SentBytes int64
 	dead    bool
 	logw    io.Writer
 }
@@ -29,6 +31,9 @@ type Solver struct {
 func solverArgs(kind string, timeoutMs int) (string, []string) {
 	switch kind {
 	case "z3":
+		if os.Getenv("SYMGO_Z3") != "" {
+			return os.Getenv("SYMGO_Z3"), []string{"-in", fmt.Sprintf("-t:%d", timeoutMs)}
+		}
 		return "/usr/bin/z3", []string{"-in", fmt.Sprintf("-t:%d", timeoutMs)}
 	case "z3-new":
 		return "z3-new", []string{"-in", fmt.Sprintf("-t:%d", timeoutMs)}
@@ -83,6 +88,8 @@ func (s *Solver) Close() {
 
 // Send writes commands that produce no output we wait for.
 func (s *Solver) Send(text string) {
+	t0 := time.Now()
+	defer func() { s.SendTime += time.Since(t0); s.SentBytes += int64(len(text)) }()
 	if s.logw != nil {
 		io.WriteString(s.logw, text)
 	}
@@ -97,6 +104,8 @@ const endMark = "<<<END>>>"
 // Ask sends text followed by an echo marker and returns all output lines up
 // to the marker.
 func (s *Solver) Ask(text string) string {
+	t0 := time.Now()
+	defer func() { s.AskTime += time.Since(t0) }()
 	s.Send(text + "(echo \"" + endMark + "\")\n")
 	var sb strings.Builder
 	for {
